@@ -81,7 +81,7 @@ pub fn run(cfg: &Cfg) -> (&'static str, Report, String, String) {
     let nrand = cfg.by(5, 2000, 20000);
     rep.merge(par_for(cfg, nrand, |i, r| {
         let mut rng = Rng::new(cfg.seed.wrapping_mul(2_147_483_647).wrapping_add(i as u64));
-        let n = rng.below(cfg.by(12, 40, 40));
+        let n = rng.below(if i % 8 == 7 { cfg.by(40, 300, 300) } else { cfg.by(12, 40, 40) });
         let mut b: Vec<u8> = (0..n).map(|_| if rng.chance(1, 6) { 0 } else { (rng.next() & 0xFF) as u8 }).collect();
         if rng.chance(1, 2) {
             b.push(0);
